@@ -49,6 +49,10 @@ func runC06(l *core.Ledger) {
 	c06P3(l, eps)
 	c06P4(l)
 	c06P5(l, r)
+	// the confirmation is delivered by a send under the router lock: the channel it goes to
+	// must have room for every confirmation of the call, made by that call (C05-M6 re-run) -
+	// an abandoned send-waiting call must not block the node's sender for later one-way calls
+	l.With(map[string]string{"C05-M6": "C06-P5"}, func() { c05M6(l, r, eps) })
 	c06P6(l)
 }
 
@@ -236,12 +240,11 @@ func c06P3(l *core.Ledger, eps []*entryPoint) {
 							c, ok := v.(*ssa.Const)
 							return ok && c.Value != nil && constant.Sign(c.Value) == 0
 						}
-						var cond *ssa.BinOp
-						condPos := true
+						var cx, cy ssa.Value
+						var cop token.Token
+						hasCond := false
 						if ifi, ok := h.Instrs[len(h.Instrs)-1].(*ssa.If); ok {
-							v, pos := condOf(ifi)
-							cond, _ = v.(*ssa.BinOp)
-							condPos = pos
+							cx, cop, cy, hasCond = sx.LoopCondition(ifi, ph)
 						}
 						// (i) count down from the sent counter while > 0 (or != 0)
 						isSent, dec, cmp := false, false, false
@@ -253,7 +256,7 @@ func c06P3(l *core.Ledger, eps []*entryPoint) {
 								dec = true
 							}
 						}
-						if cond != nil && condPos && cond.X == ssa.Value(ph) && (cond.Op == token.GTR || cond.Op == token.NEQ) && isZero(cond.Y) {
+						if hasCond && cx == ssa.Value(ph) && (cop == token.GTR || cop == token.NEQ) && isZero(cy) {
 							cmp = true
 						}
 						// (ii) count up from 0 while < the sent counter (or != it)
@@ -267,10 +270,7 @@ func c06P3(l *core.Ledger, eps []*entryPoint) {
 									inc = true
 								}
 							}
-							if cond != nil && condPos && cond.X == ssa.Value(ph) && (cond.Op == token.LSS || cond.Op == token.NEQ) && isSentCounter(cond.Y) {
-								lt = true
-							}
-							if cond != nil && condPos && cond.Y == ssa.Value(ph) && cond.Op == token.GTR && isSentCounter(cond.X) {
+							if hasCond && cx == ssa.Value(ph) && (cop == token.LSS || cop == token.NEQ) && isSentCounter(cy) {
 								lt = true
 							}
 							if from0 && inc && lt {
